@@ -3,7 +3,7 @@ import json
 import os
 import vlib
 
-PROPS = ['Rangers.Props.C07', 'Rangers.Props.C07Facts']
+PROPS = ['Rangers.Props.C07', 'Rangers.Props.C07Rlp', 'Rangers.Props.C07Facts']
 DRIVERS = ['C07']
 META = dict(
     level='proof',
@@ -37,7 +37,11 @@ def gen(ctx):
     if rc != 0 or 'namespace Rangers.Generated.C07' not in so:
         return dict(ok=False, error='c07facts failed: ' + (se or so)[-800:])
     changed = vlib.write_if_changed(os.path.join(vlib.LEAN, 'Rangers', 'Generated', 'C07Facts.lean'), so)
-    return dict(ok=True, changed=changed, bytes=len(so))
+    # the reflected RLP shape of eth_tx.txdata (C08's translator) is a fact C07 leans on as well
+    g8 = vlib.load_plugin('C08').gen(ctx)
+    if not g8.get('ok'):
+        return dict(ok=False, error='C08 type reflection failed: ' + str(g8.get('error'))[:600])
+    return dict(ok=True, changed=changed, bytes=len(so), c08_types=True)
 
 
 def _n(ctx):
